@@ -249,6 +249,7 @@ func runC12(c *Ctx) {
 	checkMutatorsNotify(c, "R11.2")
 	// after a pull the excerpts queried are those of the merged entities (shared with C02/C11)
 	checkCacheMergeFold(c, "R2.6")
+	checkResolversNotMemoised(c, "R12.11")
 	checkRepairQuery(c)
 	checkMatch(c)
 	checkLexerAutomaton(c)
